@@ -118,8 +118,10 @@ def r04_2(ctx) -> None:
         cfg = cfg_of(fn)
         cn, zn = cfg.node_of(cs[0].node), cfg.node_of(zs[0].node)
         # condition guarding the zip call
+        # tests that decide *whether* compression happens: the zip call needs their true edge, and their false edge is a real
+        # alternative (it can complete normally) - error gates that merely precede the call are not part of the condition
         guards = [t for t in cfg.nodes if t.kind == "test" and zn is not None and zn not in cfg.reachable(cfg.entry, edge_filter=lambda a, b, lab, _t=t: not (a is _t and lab == "true"))
-                  and isinstance(t.ast, ast.Compare) and isinstance(t.stmt, ast.If)]
+                  and isinstance(t.ast, ast.Compare) and isinstance(t.stmt, ast.If) and can_reach_exit(cfg, succ_by_label(cfg, t, "false"))]
         conds[side] = sorted(norm(t.ast) for t in guards)
         if side == "encrypt":
             # the (possibly compressed) plaintext is what is encrypted, and compression precedes encryption
@@ -154,12 +156,15 @@ def _written_members(fn: FunctionInfo) -> Set[str]:
 
 def _read_members(fn: FunctionInfo, param: str) -> Set[str]:
     out: Set[str] = set()
+    # loop variables ranging over a list member of the parameter (for item in data["recipients"]) read members of its elements
+    elems = {norm(n.target) for n in fn_nodes(fn) if isinstance(n, (ast.For, ast.comprehension)) and isinstance(n.target, ast.Name) and isinstance(n.iter, ast.Subscript)
+             and norm(n.iter.value) == param}
     for n in fn_nodes(fn):
-        if isinstance(n, ast.Subscript) and isinstance(n.ctx, ast.Load) and isinstance(n.slice, ast.Constant) and isinstance(n.slice.value, str) and norm(n.value) in (param, "item"):
+        if isinstance(n, ast.Subscript) and isinstance(n.ctx, ast.Load) and isinstance(n.slice, ast.Constant) and isinstance(n.slice.value, str) and norm(n.value) in ({param} | elems):
             out.add(n.slice.value)
-        if isinstance(n, ast.Call) and isinstance(n.func, ast.Attribute) and n.func.attr == "get" and norm(n.func.value) in (param, "item") and n.args and isinstance(n.args[0], ast.Constant):
+        if isinstance(n, ast.Call) and isinstance(n.func, ast.Attribute) and n.func.attr == "get" and norm(n.func.value) in ({param} | elems) and n.args and isinstance(n.args[0], ast.Constant):
             out.add(n.args[0].value)
-        if isinstance(n, ast.Compare) and isinstance(n.left, ast.Constant) and isinstance(n.ops[0], (ast.In, ast.NotIn)) and norm(n.comparators[0]) in (param, "item"):
+        if isinstance(n, ast.Compare) and isinstance(n.left, ast.Constant) and isinstance(n.ops[0], (ast.In, ast.NotIn)) and norm(n.comparators[0]) in ({param} | elems):
             out.add(n.left.value)
     return out
 
